@@ -189,6 +189,23 @@ def main():
                      '(=, !=, <=, >=, <, >)', a=a, b=b, got=got)
             if ev('$a - $b', a=a, b=b) != TD(0):
                 fail('one instant at two offsets: a - b != 0', a=a, b=b)
+    # host datetimes in a zone whose offset VARIES (daylight saving time):
+    # the algebra is the same - (d + t) - d = t and (d + t) - t = d
+    eastern = tz.tzstr('EST5EDT,M3.2.0,M11.1.0')
+    for base in (DT(2021, 3, 13, 12, tzinfo=eastern),
+                 DT(2021, 11, 6, 12, tzinfo=eastern),
+                 DT(2021, 7, 1, 1, 30, tzinfo=eastern)):
+        for t in (TD(hours=24), TD(hours=-24), TD(days=200),
+                  TD(minutes=90)):
+            cases += 1
+            r = ev('($d + $t) - $d', d=base, t=t)
+            if r != t:
+                fail('(d + t) - d != t for a host datetime in a zone with '
+                     'daylight saving time', d=base, t=t, got=r)
+            r = ev('($d + $t) - $t', d=base, t=t)
+            if r != base or r.utcoffset() != base.utcoffset():
+                fail('(d + t) - t != d for a host datetime in a zone with '
+                     'daylight saving time', d=base, t=t, got=r)
     # the long differences of the calendar, exactly
     lo = DT(1, 1, 2, tzinfo=UTC)
     hi = DT(9999, 12, 30, 23, 59, 59, 999999, tzinfo=UTC)
